@@ -16,6 +16,9 @@ MagicIdxCrc  == <<172, 195, 167, 40>>
 Err(why) == [ok |-> FALSE, why |-> why]
 
 \* ------------------------------------------------------------------ header
+\* an index field that may hold more than TLC's integers do (4-byte fields of corrupted input): anything from 2^30 up is
+\* reported as 2^30, which is larger than any cell count this model accepts (so the index is dangling)
+UBig(B, off, len) == IF SmallBE(B, off, len) /\ UBE(B, off, len) < 1073741824 THEN UBE(B, off, len) ELSE 1073741824
 Header(B) ==
     IF Len(B) < 6 THEN Err("short_header")
     ELSE LET magic == Sub(B, 1, 4) IN
@@ -58,9 +61,6 @@ Header(B) ==
                 idxoff |-> p2, dataoff |-> p3, endoff |-> p3 + tot]
 
 \* ------------------------------------------------------------------ cells
-\* an index field that may hold more than TLC's integers do (4-byte fields of corrupted input): anything from 2^30 up is
-\* reported as 2^30, which is larger than any cell count this model accepts (so the index is dangling)
-UBig(B, off, len) == IF SmallBE(B, off, len) /\ UBE(B, off, len) < 1073741824 THEN UBE(B, off, len) ELSE 1073741824
 \* length in bytes of the cell starting at off (needs 2 readable bytes)
 CellLenAt(B, off, size) ==
     LET d1 == B[off]  d2 == B[off + 1]
